@@ -59,8 +59,13 @@ def nodecfg_replay_job(job):
             except RecursionError:
                 ph = -1
             ent = dict(delay=grid(n.delay), dist=dist_id(n.delay_dist), phase=ph, inputs=[])
+            info = None
             if use_info and ph >= 0:
-                info = n.info
+                try:
+                    info = n.info
+                except RecursionError:
+                    info = None  # a (skipped) input comes from a node with an algebraic loop upstream: its connection phase is undefined
+            if info is not None:
                 ent = dict(delay=grid(info.delay), dist=dist_id(info.delay_dist), phase=grid(info.phase), inputs=[])
                 by_src = {c.output_node.name: k for k, c in n.inputs.items()}
                 for src, ii in info.inputs.items():
